@@ -16,7 +16,9 @@ def constants_for(cfg, focus, w=32):
 class Recorder:
     """One trace = one CoinState history."""
 
-    def __init__(self, world, tid, bal=False, full=True, snapshots=True):
+    def __init__(self, world, tid, bal=False, full=True, snapshots=True, evidence=None):
+        self.evidence = evidence          # property id: also record TracePowEvidence events for validated adds
+        self.evidence_events = []
         self.w = world
         self.tid = tid
         self.bal = bal
@@ -50,6 +52,11 @@ class Recorder:
                 after = before.add_block_no_validation(block)
         except Exception as e:           # any raise = rejected; the receiver must be unchanged
             res, rule, after = "rej", sk.rule_of_exception(e), before
+        if self.evidence and validated:
+            from . import evidence_drv
+            ee = evidence_drv.event(w, block, res == "ok", blk["evok"], self.evidence)
+            if ee is not None:
+                self.evidence_events.append(ee)
         if res == "ok":
             w.register(block)
             if validated:
@@ -76,6 +83,26 @@ class Recorder:
 
     def trace(self):
         return {"id": self.tid, "genesis": self.w.observe(self.genesis), "events": self.events}
+
+
+def validate_evidence(chk, events, workers=1):
+    """Run TracePowEvidence over evidence events; FINDING lines become violations of the property named in the event."""
+    from . import tracecheck
+    if not events:
+        return
+    B = 150
+    for k in range(0, len(events), B):
+        batch = events[k:k + B]
+        verdicts, r = tracecheck.run("TracePowEvidence", batch, {"SampleCount": 8, "SampleSize": 4}, ids=[1], workers=workers, timeout=3000)
+        chk.states += r.distinct
+        chk.transitions += r.generated
+        chk.traces_validated += len(batch)
+        for (line, clause) in tlc.tagged(r, "FINDING"):
+            e = batch[line - 1]
+            chk.violation(clause, {"height": e["height"], "stated": {a: bytes(b).hex() for a, b in e["stated"].items()},
+                                   "summary_hex": bytes(e["summary"]).hex()}, {"clause": clause})
+        for (line, what) in tlc.tagged(r, "DRIFT"):
+            chk.model_drift("evidence event %s: %s" % (k + line, what))
 
 
 def replay_hist(world, hist, tid, **kw):
